@@ -7,7 +7,7 @@ from ..absval import SStr, SNum, SObj, HDict, Atom
 from ..core import AnalysisError, Ctx
 
 META = {
-    "explanation": "Dataflow clauses, each decided by PAI with symbolic line / column numbers carried by abstract tokens: (Q1) create_position_dict takes line from the key token's .line and column from its .column (no swap, no arithmetic) and lists the (line, column) of the flattened value tokens in order; (Q2) in attr / composite / key-value blocks / PROJECTION / POINTS / CONFIG the token handed to it is the *keyword* token, and composite() hoists each attribute's own position under that attribute's key (repeated keywords: a list in source order); (Q3) callbacks that rewrite a token's value keep its position (update_token_value, expression builders return their first operand's token); (Q4) for every error-path shape create_message reports the line / column recorded for the offending keyword, or the enclosing block's own line / column for object-level errors (root, object in a list, singleton block, key/value block); (Q5) the CLI prints the message's line and column.",
+    "explanation": "Dataflow clauses, each decided by PAI with symbolic line / column numbers carried by abstract tokens: (Q1) create_position_dict takes line from the key token's .line and column from its .column (no swap, no arithmetic) and lists the (line, column) of the flattened value tokens in order; (Q2) in attr / composite / key-value blocks / PROJECTION / POINTS / CONFIG the token handed to it is the *keyword* token, and composite() hoists each attribute's own position under that attribute's key (repeated keywords: a list in source order); (Q3) callbacks that rewrite a token's value keep its position (update_token_value, expression builders return their first operand's token); (Q4) for every error-path shape create_message reports the line / column recorded for the offending keyword, or the enclosing block's own line / column for object-level errors (root, object in a list, singleton block, key/value block); (Q5) the CLI prints the message's line and column. Q4 also evaluates validate([root0, root1]) from validate() down to create_message() with a stand-in reporting the same error paths for both roots: every message carries the position recorded in its own root.",
     "level_text": "Necessary conditions: the numbers lark put on the tokens reach the dictionary and the messages unchanged and attached to the right key. That lark's numbers are the 1-based position of the token's first character under every layout is trusted, not decided.",
     "level_note": "Trusted: lark's Token.line / Token.column. Multi-line values and every concrete layout are outside what a static argument here can bound.",
     "technique": "abstract interpretation with symbolic position numbers (provenance of line/column through transformer and validator)",
